@@ -21,7 +21,14 @@ def units_table():
         for b in bodies:
             if b not in seen:
                 seen.add(b); uniq.append(b)
-        rows.append("| %s | %s | %s | %s |" % (m.group(1), kv.get("props", ""), ", ".join(uniq), kv.get("thorough_widths", kv.get("widths", "u32"))))
+        pins = []
+        for b in re.finditer(r"//@pin\s+(.*)", txt):
+            k = gen._parse_kv(b.group(1))
+            pins.append("`%s::%s`" % (os.path.basename(k["file"]), k["fn"]))
+        cell = ", ".join(uniq)
+        if pins:
+            cell = (cell + "; " if cell else "") + "pinned, not under contract (bounded sweep when changed): " + ", ".join(dict.fromkeys(pins))
+        rows.append("| %s | %s | %s | %s |" % (m.group(1), kv.get("props", ""), cell, kv.get("thorough_widths", kv.get("widths", "u32"))))
     return "\n".join(rows)
 
 def seeds_table():
